@@ -161,6 +161,7 @@ type Run struct {
 	onces map[*Value]bool
 	curFrame *frame
 	stubs    map[string]bool
+	realBacked map[string]bool
 	stubFuncs map[string]Value
 	pcSet    map[*Term]bool
 	clockConcrete bool
